@@ -505,3 +505,127 @@ def shortest(edges, src, dst):
             if dist[u] + w < dist[v]:
                 dist[v] = dist[u] + w
     return None if dist[dst] == INF else dist[dst]
+
+
+# ---------------------------------------------------------------------------------------------
+# canonical form of a function body: independent of local names and of naming intermediate values
+WRITE_OPS = ("=", "+=", "-=", "*=", "/=", "%=", "&=", "|=", "^=", "<<=", ">>=", "++", "--")
+
+
+def canonize(f, inline=True):
+    """Deep copy of a function record in which parameters are named $i, the variables of for-loops #k (order of appearance),
+    range-for variables @k, lambda parameters &k, and the remaining locals %k; with `inline`, a local that is initialised at
+    its declaration and never written afterwards (no assignment, ++/--, no binding to a non-const reference parameter, no
+    address taken) is replaced by its initialiser wherever it is used.  Keys rendered from the copy therefore do not depend
+    on local names, nor on whether an intermediate value was given a name.  Use it for rendering and comparing expressions
+    only: an inlined initialiser appears once per use, so calls must be counted on the original record."""
+    import copy
+    g = copy.deepcopy(f)
+    names, inits = {}, {}
+    for i, p in enumerate(g.get("params") or []):
+        if p.get("id"):
+            names[p["id"]] = "$%d" % i
+    written, loopvars, rangevars, lamparams, order = set(), [], [], [], []
+
+    def target_id(n):
+        n = strip(n)
+        while isinstance(n, dict) and n.get("k") in ("Paren",):
+            n = strip(n.get("e"))
+        return n.get("id") if isinstance(n, dict) and n.get("k") == "DeclRef" else None
+
+    def scan(x, p):
+        k = x.get("k")
+        if k == "Decl":
+            in_for_init = bool(p) and p[-1][0].get("k") == "For" and p[-1][1] == "init"
+            for dd in x.get("decls", []):
+                if dd.get("id") and dd.get("name"):
+                    order.append((x.get("line") or 0, len(order), dd))
+                    if in_for_init:
+                        loopvars.append((x.get("line") or 0, len(p), len(loopvars), dd["id"]))
+        elif k == "ForRange" and x.get("var_id"):
+            rangevars.append((x.get("line") or 0, len(p), len(rangevars), x["var_id"]))
+        elif k == "Lambda":
+            for q in x.get("params") or []:
+                if q.get("id"):
+                    lamparams.append((x.get("line") or 0, len(p), len(lamparams), q["id"]))
+        elif k in ("Assign", "CompoundAssign"):
+            t = target_id(x.get("l"))
+            if t:
+                written.add(t)
+        elif k == "Unary" and x.get("op") in ("++", "--", "&"):
+            t = target_id(x.get("e"))
+            if t:
+                written.add(t)
+        elif k == "Call":
+            args = x.get("args") or []
+            if args and (x.get("op") in WRITE_OPS or (x.get("op") and x["callee"].get("method") and not x["callee"].get("const", True))):
+                t = target_id(args[0])
+                if t:
+                    written.add(t)
+            if x.get("member_call") and x.get("obj") is not None and not x["callee"].get("const", True):
+                t = target_id(x["obj"])
+                if t:
+                    written.add(t)
+            pts = x["callee"].get("ptypes") or []
+            off = 1 if (x.get("op") and x["callee"].get("method")) else 0
+            for i, a in enumerate(args):
+                j = i - off
+                if 0 <= j < len(pts) and pts[j].rstrip().endswith("&") and not pts[j].lstrip().startswith("const ") and "&&" not in pts[j]:
+                    t = target_id(a)
+                    if t:
+                        written.add(t)
+    walk(g.get("body"), scan)
+    # numbered in source order (line, then nesting depth), not in the order the JSON happens to list the fields
+    for i, v in enumerate(sorted(loopvars)):
+        names[v[-1]] = "#%d" % i
+    for i, v in enumerate(sorted(rangevars)):
+        names[v[-1]] = "@%d" % i
+    for i, v in enumerate(sorted(lamparams)):
+        names[v[-1]] = "&%d" % i
+    cnt = 0
+    for _, _, dd in sorted(order, key=lambda t: (t[0], t[1])):
+        if dd["id"] in names:
+            continue
+        ty = dd.get("type") or ""
+        is_ref = ty.rstrip().endswith("&") and not ty.lstrip().startswith("const ")
+        if inline and dd.get("init") is not None and dd["id"] not in written and not is_ref:
+            inits[dd["id"]] = dd["init"]
+            names[dd["id"]] = "=" + dd["name"]
+        else:
+            names[dd["id"]] = "%%%d" % cnt
+            cnt += 1
+
+    def sub(n, depth=0):
+        if isinstance(n, list):
+            return [sub(x, depth) for x in n]
+        if not isinstance(n, dict):
+            return n
+        if n.get("k") == "DeclRef" and n.get("id") in inits and depth < 12:
+            return sub(copy.deepcopy(inits[n["id"]]), depth + 1)
+        out = {}
+        for k, v in n.items():
+            out[k] = sub(v, depth) if isinstance(v, (dict, list)) else v
+        if out.get("k") == "DeclRef" and out.get("id") in names:
+            out["name"] = names[out["id"]]
+        if out.get("k") == "ForRange" and out.get("var_id") in names:
+            out["var"] = names[out["var_id"]]
+        if "decls" in out and out.get("k") == "Decl":
+            for dd in out["decls"]:
+                if dd.get("id") in names:
+                    dd["name"] = names[dd["id"]]
+        if out.get("k") == "Lambda":
+            for q in out.get("params") or []:
+                if q.get("id") in names:
+                    q["name"] = names[q["id"]]
+            for q in out.get("captures") or []:
+                if q.get("id") in names:
+                    q["name"] = names[q["id"]]
+        return out
+    g["body"] = sub(g.get("body"))
+    if g.get("inits"):
+        g["inits"] = sub(g["inits"])
+    for i, p in enumerate(g.get("params") or []):
+        p["orig_name"] = p.get("name")
+        p["name"] = "$%d" % i
+    g["canon_names"] = names
+    return g
